@@ -6,6 +6,8 @@
 package routing
 
 import (
+	"sync"
+
 	log "github.com/sirupsen/logrus"
 
 	"github.com/dtn7/dtn7-go/pkg/bpv7"
@@ -17,6 +19,10 @@ import (
 // flooding-based epidemic way.
 type EpidemicRouting struct {
 	c *Core
+
+	// sentMutex guards the read-modify-write cycles on a bundle's list of peers within its BundleItem. Transmission
+	// failures are reported concurrently, from one Goroutine for each peer.
+	sentMutex sync.Mutex
 }
 
 // NewEpidemicRouting creates a new EpidemicRouting Algorithm interacting
@@ -84,6 +90,9 @@ func (er *EpidemicRouting) NotifyNewBundle(bp BundleDescriptor) {
 }
 
 func (er *EpidemicRouting) clasForBundle(bp BundleDescriptor, updateDb bool) (css []cla.ConvergenceSender, del bool) {
+	er.sentMutex.Lock()
+	defer er.sentMutex.Unlock()
+
 	bi, biErr := er.c.store.QueryId(bp.Id)
 	if biErr != nil {
 		log.WithFields(log.Fields{
@@ -156,6 +165,9 @@ func (er *EpidemicRouting) SenderForBundle(bp BundleDescriptor) (css []cla.Conve
 }
 
 func (er *EpidemicRouting) ReportFailure(bp BundleDescriptor, sender cla.ConvergenceSender) {
+	er.sentMutex.Lock()
+	defer er.sentMutex.Unlock()
+
 	bi, biErr := er.c.store.QueryId(bp.Id)
 	if biErr != nil {
 		log.WithFields(log.Fields{
